@@ -59,7 +59,7 @@ def floors(tier):
     return {'evaluations': 100000, 'distinct_nontrivial': 8000, 'nodes_mode_checked': 200000,
             'automaton_compared': 2000, 'ground_truth_pieces': 30000, 'formulas_checked': 15000,
             'hist:nesting:math-in-text-in-math': 50, 'hist:nesting:text-in-math': 200,
-            'hist:adjacent:inline-inline-dollar': 20}
+            'hist:adjacent:inline-inline-dollar': 20, 'mixed_mode_argument_calls': 200}
 
 
 def setup(rec):
@@ -72,6 +72,8 @@ def propagate(s, n, mode, delim, rec, modes, depthinfo):
     """mode: expected in_math_mode; delim: expected delimiter, or '<noncore>' for env/ensuremath math."""
     ps = n.parsing_state
     rec.monitor('nodes_mode_checked')
+    if canon.kind(n) == 'macro' and n.macroname in ('annot', 'mlabel', 'tmix'):
+        rec.monitor('mixed_mode_argument_calls')
     if bool(ps.in_math_mode) != mode:
         return '%s at %d..%d records in_math_mode=%r, the enclosing structure implies %r' % (
             canon.kind(n), n.pos, n.pos_end, ps.in_math_mode, mode)
